@@ -1108,3 +1108,242 @@ func c08r15(c *Ctx, r *Report) {
 		r.check(read[f], fmt.Sprintf("%s:pending.%s is folded in", relName(merge), f), merge.Pos(), merge, "the pending request's "+f+" is read", "the pending request's "+f+" is dropped when a newer request replaces it")
 	}
 }
+
+// builderCells returns the variables of Run that the item-builder closures (the functions handed to
+// NewChunkList, and the closures they call) store into: the state the builders keep from one record to the next.
+func builderCells(l *Loaded) (run *ssa.Function, cells map[*ssa.Alloc][]*ssa.Store, builders []*ssa.Function) {
+	run = l.Fn("fzf", "Run")
+	ncl := l.Fn("fzf", "NewChunkList")
+	cells = map[*ssa.Alloc][]*ssa.Store{}
+	if run == nil || ncl == nil {
+		return
+	}
+	seen := map[*ssa.Function]bool{}
+	var add func(f *ssa.Function)
+	add = func(f *ssa.Function) {
+		if f == nil || seen[f] || rootFn(f) != run {
+			return
+		}
+		seen[f] = true
+		builders = append(builders, f)
+		eachInstr(f, func(in ssa.Instruction) {
+			call, ok := in.(*ssa.Call)
+			if !ok {
+				return
+			}
+			// closures of Run called through a captured variable (ansiProcessor)
+			v := call.Common().Value
+			if u, ok := v.(*ssa.UnOp); ok && u.Op == token.MUL {
+				if fv, ok := u.X.(*ssa.FreeVar); ok {
+					if al := freeVarAlloc(f, fv); al != nil {
+						for _, st := range storesToAlloc(al) {
+							if mc, ok := st.Val.(*ssa.MakeClosure); ok {
+								add(mc.Fn.(*ssa.Function))
+							}
+						}
+					}
+				}
+			}
+		})
+	}
+	eachInstr(run, func(in ssa.Instruction) {
+		if call, ok := in.(*ssa.Call); ok && callIs(call.Common(), ncl) {
+			a := call.Call.Args[1]
+			if ct, ok := a.(*ssa.ChangeType); ok {
+				a = ct.X // the literal converted to the named type ItemBuilder
+			}
+			if mc, ok := a.(*ssa.MakeClosure); ok {
+				add(mc.Fn.(*ssa.Function))
+			}
+		}
+	})
+	for _, f := range builders {
+		eachInstr(f, func(in ssa.Instruction) {
+			st, ok := in.(*ssa.Store)
+			if !ok {
+				return
+			}
+			if fv, ok := st.Addr.(*ssa.FreeVar); ok {
+				if al := freeVarAlloc(f, fv); al != nil {
+					cells[al] = append(cells[al], st)
+				}
+			}
+		})
+	}
+	return
+}
+
+// freeVarAlloc resolves a free variable of a closure (possibly nested) to the Alloc it was bound to.
+func freeVarAlloc(f *ssa.Function, fv *ssa.FreeVar) *ssa.Alloc {
+	for d := 0; d < 6 && f != nil && f.Parent() != nil; d++ {
+		idx := -1
+		for i, x := range f.FreeVars {
+			if x == fv {
+				idx = i
+			}
+		}
+		if idx < 0 {
+			return nil
+		}
+		var bound ssa.Value
+		for _, g := range withClosures(f.Parent()) {
+			eachInstr(g, func(in ssa.Instruction) {
+				if mc, ok := in.(*ssa.MakeClosure); ok && mc.Fn == ssa.Value(f) && idx < len(mc.Bindings) {
+					bound = mc.Bindings[idx]
+				}
+			})
+		}
+		switch b := bound.(type) {
+		case *ssa.Alloc:
+			return b
+		case *ssa.FreeVar:
+			fv, f = b, f.Parent()
+		default:
+			return nil
+		}
+	}
+	return nil
+}
+
+// storesToAlloc lists the stores into an Alloc made by its function and by the closures that capture it.
+func storesToAlloc(al *ssa.Alloc) []*ssa.Store {
+	var out []*ssa.Store
+	for _, g := range withClosures(al.Parent()) {
+		eachInstr(g, func(in ssa.Instruction) {
+			st, ok := in.(*ssa.Store)
+			if !ok {
+				return
+			}
+			switch a := st.Addr.(type) {
+			case *ssa.Alloc:
+				if a == al {
+					out = append(out, st)
+				}
+			case *ssa.FreeVar:
+				if freeVarAlloc(g, a) == al {
+					out = append(out, st)
+				}
+			}
+		})
+	}
+	return out
+}
+
+// c11r14: the colour state carried from one input line to the next lives in variables of Run that the
+// item builders update. A value stored into such a variable must be the state extractColor returned for the
+// line just processed (or nil) — not a copy of the variable taken BEFORE the line was processed, which is
+// the state of the line before (D31: the --with-nth builder seeded its tokens from prevLineAnsiState, a copy
+// made ahead of the update; a colour left open was applied to every other line only).
+func c11r14(c *Ctx, r *Report) {
+	l := c.L
+	r.rule("C11-R14", "D (provenance of the carried state)", "P1",
+		"every value the item builders store into a captured *ansiState variable of Run is the state result of an extractColor call or nil; a load of another such variable is accepted only after that variable's own update in the same function",
+		"with --ansi --with-nth the colour carried over from the previous line is one line late: it is applied to every other line")
+	run, cells, _ := builderCells(l)
+	ext := l.Fn("fzf", "extractColor")
+	if run == nil || ext == nil {
+		r.unest("anchors", token.NoPos, nil, "anchors Run / NewChunkList / extractColor", "cannot resolve")
+		return
+	}
+	isState := func(al *ssa.Alloc) bool {
+		p, ok := deref(al.Type()).(*types.Pointer)
+		if !ok {
+			return false
+		}
+		n, ok := p.Elem().(*types.Named)
+		return ok && n.Obj().Name() == "ansiState"
+	}
+	n := 0
+	var als []*ssa.Alloc
+	for al := range cells {
+		if isState(al) {
+			als = append(als, al)
+		}
+	}
+	sort.Slice(als, func(i, j int) bool { return als[i].Comment < als[j].Comment })
+	for _, al := range als {
+		for i, st := range cells[al] {
+			n++
+			f := st.Parent()
+			why := ""
+			switch v := st.Val.(type) {
+			case *ssa.Extract:
+				call, ok := v.Tuple.(*ssa.Call)
+				if !ok || !callIs(call.Common(), ext) || v.Index != 2 {
+					why = "the stored value is not the state result of extractColor"
+				}
+			case *ssa.Const:
+				if !v.IsNil() {
+					why = "the stored value is a non-nil constant"
+				}
+			case *ssa.UnOp:
+				src, _ := v.X.(*ssa.FreeVar)
+				var from *ssa.Alloc
+				if src != nil {
+					from = freeVarAlloc(f, src)
+				}
+				if v.Op != token.MUL || from == nil || !isState(from) {
+					why = "the stored value is not derived from extractColor"
+					break
+				}
+				updated := false
+				for _, s2 := range cells[from] {
+					if s2.Parent() == f && dominates(s2, v) {
+						updated = true
+					}
+				}
+				if !updated {
+					why = fmt.Sprintf("it is a copy of %s taken before %s is updated for the current line: the state of the line before", from.Comment, from.Comment)
+				}
+			default:
+				why = "the stored value is not the state result of extractColor"
+			}
+			r.check(why == "", fmt.Sprintf("%s:store #%d into %s", relName(run), i+1, al.Comment), st.Pos(), f, "the carried state is the one extractColor returned for this line", why)
+		}
+	}
+	r.floor("stores into the carried ANSI state", n, 1)
+}
+
+// c11r15: a reload starts a new input stream; everything the item builders carry from one record to the
+// next belongs to the old stream and has to be reset by the coordinator's restart closure, as itemIndex and
+// header are (D32: the carried colour state was not, so a colour left open by the last line of the old input
+// coloured the first lines of the reloaded input).
+func c11r15(c *Ctx, r *Report) {
+	l := c.L
+	r.rule("C11-R15", "E (census: every builder cell is reset)", "P1",
+		"every variable of Run that the item builders store into is also stored by the closure that restarts the reader (the one that calls Reader.restart)",
+		"state of the previous input leaks into the reloaded one: item ordinals continue, header lines are not diverted again, the first lines inherit the colour of the old input's last line")
+	run, cells, _ := builderCells(l)
+	rr := l.Fn("fzf", "(*Reader).restart")
+	if run == nil || rr == nil {
+		r.unest("anchors", token.NoPos, nil, "anchors Run / Reader.restart", "cannot resolve")
+		return
+	}
+	var restart *ssa.Function
+	for _, g := range withClosures(run) {
+		eachInstr(g, func(in ssa.Instruction) {
+			if ci, ok := in.(ssa.CallInstruction); ok && callIs(ci.Common(), rr) {
+				restart = g
+			}
+		})
+	}
+	if restart == nil {
+		r.unest("anchors", token.NoPos, run, "the closure of Run that calls Reader.restart", "cannot find it")
+		return
+	}
+	var als []*ssa.Alloc
+	for al := range cells {
+		als = append(als, al)
+	}
+	sort.Slice(als, func(i, j int) bool { return als[i].Comment < als[j].Comment })
+	for _, al := range als {
+		reset := false
+		for _, st := range storesToAlloc(al) {
+			if st.Parent() == restart {
+				reset = true
+			}
+		}
+		r.check(reset, fmt.Sprintf("%s:%s is reset on reload", relName(run), al.Comment), al.Pos(), restart, "restart stores it", fmt.Sprintf("the item builders keep %s across records but the restart closure does not reset it: the reloaded input starts with the old input's state", al.Comment))
+	}
+	r.floor("variables the item builders keep across records", len(als), 3)
+}
